@@ -2,6 +2,6 @@
 namespace Jug.Generated.Stop
 /-- (exit check, hooks it registers on) as found in jug/hooks/exit_checks.py -/
 def exitHooks : List (String × List String) := [("exit_if_file_exists", ["execute.task-pre-execute"]), ("exit_when_true", ["execute.task-executed1"]), ("exit_after_n_tasks", ["execute.task-executed1"]), ("exit_after_time", ["execute.task-executed1"])]
-def sigtermInstalledUnconditionally : Bool := false
+def sigtermInstalledUnconditionally : Bool := true
 def sigtermRaisesSystemExit : Bool := true
 end Jug.Generated.Stop
